@@ -204,7 +204,7 @@ CHECKS["C11"]["text"] += " The pool includes the legal sequences of the scope ma
 CHECKS["C14"]["text"] += " (15 comment texts, among them '##' alone.)"
 CHECKS["C15"]["text"] += " Bases with user classes as arguments of Dict / List / Set / tuple; the stub placeholders T, R, A, B as class names."
 CHECKS["C17"]["text"] += " Default-values family: 16 kinds of default value (numbers, strings, None, expressions, list / set / tuple / dict literals, nested lists, constructor calls) x function (line / block), method, explicit __init__."
-CHECKS["C18"]["text"] += " Nested-string sweeps: all bodies over {\", a, LF, SP, +, z} (length <= 5 / 7) inside the braces of another string literal, also after a line break."
+CHECKS["C18"]["text"] += " Nested-string sweeps: all bodies over {\", a, LF, SP, +, z} (length <= 6 / 7) inside the braces of another string literal, also after a line break."
 CHECKS["C19"]["text"] += " A caret under '<unknown>' instead of a quoted source line is a failure kind of its own."
 CHECKS["C20"]["text"] += " The universe has a non-generic class below an instantiation of a generic class (IL: List[Int], St: IL) and the law generic-ancestor (a class is assignable to each declared ancestor: 5 expected-true, 3 expected-false pairs)."
 
